@@ -360,7 +360,13 @@ class PyvalColorizer:
         elif pyvaltype is int or pyvaltype is float or pyvaltype is complex:
             # 'inf' and 'nan' are not literals: show what the source must have looked like (as ast.unparse does).
             infstr = '1e%d' % (sys.float_info.max_10_exp + 1)
-            self._output(str(pyval).replace('inf', infstr).replace('nan', f'({infstr}-{infstr})'), 
+            try:
+                text = str(pyval)
+            except ValueError:
+                # An integer with more digits than sys.get_int_max_str_digits() 
+                # allows to convert: the hexadecimal form has no such limit.
+                text = hex(pyval)
+            self._output(text.replace('inf', infstr).replace('nan', f'({infstr}-{infstr})'), 
                          self.NUMBER_TAG, state)
         elif pyvaltype is str:
             self._colorize_str(pyval, state, '', escape_fcn=_str_escape)
